@@ -519,12 +519,77 @@ func (env *vfC10Env) token(target, mode, arg string) string {
 	return fmt.Sprintf("status=%d", rr.Code)
 }
 
+// extAll presents a certificate for role1, signed by the role-requesting CA and carrying `value` under the
+// address-delegation OID (nil: a well-formed 10.0.0.0/8 control), from `addr` to EVERY route main()
+// registers (table regenerated by the extractor), with GET and with POST (form with a strong pubkey).
+// Returns "n=<requests> panics=<k> [first=<path>|<method>|<hex panic>] routes=<;-joined panicking routes>".
+func (env *vfC10Env) extAll(value []byte, addr string, caCert *x509.Certificate, userPub interface{}, b64public string) string {
+	state := env.state
+	tmpl := x509.Certificate{
+		SerialNumber: big.NewInt(time.Now().UnixNano()),
+		Subject:      pkix.Name{CommonName: "role1"},
+		NotBefore:    time.Now().Add(-time.Minute),
+		NotAfter:     time.Now().Add(time.Hour),
+		KeyUsage:     x509.KeyUsageDigitalSignature,
+		ExtKeyUsage:  []x509.ExtKeyUsage{x509.ExtKeyUsageClientAuth},
+	}
+	if value == nil {
+		value = []byte{0x30, 0x0d, 0x30, 0x0b, 0x04, 0x03, 0x00, 0x01, 0x01, 0x30, 0x04, 0x03, 0x02, 0x00, 0x0a}
+	}
+	tmpl.ExtraExtensions = []pkix.Extension{{Id: asn1.ObjectIdentifier{1, 3, 6, 1, 5, 5, 7, 1, 7}, Value: value}}
+	der, err := x509.CreateCertificate(rand.Reader, &tmpl, caCert, userPub, state.Signer)
+	if err != nil {
+		return "cert-error " + err.Error()
+	}
+	leaf, err := x509.ParseCertificate(der)
+	if err != nil {
+		return "cert-error " + err.Error()
+	}
+	cs := &tls.ConnectionState{VerifiedChains: [][]*x509.Certificate{{leaf, caCert}}, PeerCertificates: []*x509.Certificate{leaf}}
+	n, panics := 0, 0
+	first := ""
+	var routes []string
+	for _, rt := range vfRouteTable(state) {
+		path := rt.path
+		if strings.HasSuffix(path, "/") {
+			path += "role1"
+		}
+		for _, method := range []string{"GET", "POST"} {
+			var req *http.Request
+			if method == "POST" {
+				form := url.Values{}
+				form.Add("pubkey", b64public)
+				req = httptest.NewRequest("POST", path, strings.NewReader(form.Encode()))
+				req.Header.Set("Content-Type", "application/x-www-form-urlencoded")
+			} else {
+				req = httptest.NewRequest("GET", path, nil)
+			}
+			req.RemoteAddr = addr
+			req.TLS = cs
+			n++
+			if _, p := vfServe(rt.h, req); p != nil {
+				panics++
+				routes = append(routes, rt.path+"|"+method)
+				if first == "" {
+					first = rt.path + "|" + method + "|" + vfHex(fmt.Sprint(p))
+				}
+			}
+		}
+	}
+	out := fmt.Sprintf("n=%d panics=%d", n, panics)
+	if panics > 0 {
+		out += " first=" + first + " routes=" + strings.Join(routes, ";")
+	}
+	return out
+}
+
 // TestVerifC10 — ops:
 //
 //	sshre <hex regex literal>                 regex of getValidSSHPublicKey as the extractor read it
 //	key <path> <spec> <mutation|->            path ∈ ssh x509 x509k8s role refresh aws
 //	    -> desc=<what the standard parser makes of the submitted bytes> [re=0|1] status=<code|PANIC> samekey=<1|0|->
 //	tok <cookie|code|access> <raw|signed> <hex>   -> status=<code|PANIC>
+//	extall <hexDER|control> <hexaddr>         certificate with that address extension to every registered route
 func TestVerifC10(t *testing.T) {
 	io := vfOpen(t)
 	defer io.close()
@@ -532,6 +597,16 @@ func TestVerifC10(t *testing.T) {
 	defer cleanup()
 	env.state.Config.OpenIDConnectIDP.Client = []OpenIDConnectClientConfig{{
 		ClientID: "verifclient", AllowClientChosenAudiences: false, AllowedRedirectDomains: []string{"example.com"}}}
+	extCA, err := x509.ParseCertificate(env.state.selfRoleCaCertDer)
+	if err != nil {
+		t.Fatal(err)
+	}
+	extPub, err := getPubKeyFromPem(testUserPEMPublicKey)
+	if err != nil {
+		t.Fatal(err)
+	}
+	extBlock, _ := pem.Decode([]byte(testUserPEMPublicKey))
+	extB64 := base64.RawURLEncoding.EncodeToString(extBlock.Bytes)
 	for _, line := range io.ops {
 		f := strings.Fields(line)
 		switch {
@@ -546,6 +621,19 @@ func TestVerifC10(t *testing.T) {
 			io.emit("ok")
 		case len(f) == 4 && f[0] == "key":
 			io.emit("%s", env.submit(f[1], f[2], f[3]))
+		case len(f) == 3 && f[0] == "extall":
+			addr, ok := vfUnhex(f[2])
+			var value []byte
+			if f[1] != "control" {
+				v, ok2 := vfUnhex(f[1])
+				ok = ok && ok2
+				value = []byte(v)
+			}
+			if !ok {
+				io.emit("bad-op")
+				continue
+			}
+			io.emit("%s", env.extAll(value, addr, extCA, extPub, extB64))
 		case len(f) == 4 && f[0] == "tok":
 			arg, ok := vfUnhex(f[3])
 			if !ok {
